@@ -524,7 +524,10 @@ def run_c12(ck):
         if all_ok:
             pv = os.path.join(vlib.RUN, "C12_run.v")
             vlib.write_if_changed(pv, RUN_V)
-            rc, out, dt, cached = vlib.coqc(pv, timeout=900)
+            ps = os.path.join(vlib.RUN, "C12_stop.v")
+            vlib.write_if_changed(ps, cpucb.STOP_V)
+            # C12_stop.v ("never before", tied to the fetched opcode) needs the cycles files and the callbacks files, not C12_run.v
+            (rc, out, dt, cached), stop_res = vlib.parallel([lambda: vlib.coqc(pv, timeout=900), lambda: (vlib.coqc(ps, timeout=900) if cb_ok else None)])
             ck.oblige("Theorems C12_run_until_65 / C12_run_until_alt / C12_run_steps_65 : RunUntil returns for every start state, target, budget < 2^64-255 and any fuel > budget; "
                       "truthful answer; nothing executed at the target; every executed Step started under the budget (static Props/RunProps.v instantiated with this run's Step contract); "
                       "C12_stop_history_65 / _alt, C12_stop_until_reset_65 / _alt : over EVERY history of Step / Reset / TriggerIRQ / triggerNMI calls from a state with fields in their Go types "
@@ -532,16 +535,13 @@ def run_c12(ck):
                       "the condition lasts from the Step that raised it until the next Reset, Reset clears it, TriggerIRQ / triggerNMI never change it", rc == 0, out[-800:])
             if rc == 0:
                 ck.assumptions += vlib.parse_assumptions(out)
-            # "and never before", tied to the fetched opcode: needs C12_step (cycles file), the callbacks files and C12_run.v
-            if rc == 0 and cb_ok:
-                ps = os.path.join(vlib.RUN, "C12_stop.v")
-                vlib.write_if_changed(ps, cpucb.STOP_V)
-                rcs, outs, dts, _ = vlib.coqc(ps, timeout=900)
+            if stop_res is not None:
+                rcs, outs, dts, _ = stop_res
                 fails = "" if rcs == 0 else (cpucb.failing_lemma(ps, outs) or "x") + " " + " ".join(outs[-500:].split())
                 stop_file = "C12_stop"
             else:
-                rcs, dts, stop_file = 1, 0.0, (cb_broken[0][1] if cb_broken else "C12_run")
-                fails = (cb_broken[0][2] if cb_broken else "C12_run.v does not compile")
+                rcs, dts, stop_file = 1, 0.0, (cb_broken[0][1] if cb_broken else "C12_cb")
+                fails = (cb_broken[0][2] if cb_broken else "the callbacks files do not compile")
             for mod in ("GenCpu65", "GenCpuAlt"):
                 ck.oblige("Theorem C12_stop_only_stp_%s : forall s, Inv (Bty fwidth) s -> forall r s', Step s = Ok r s' -> with a = PRK'*65536+PPC', pc = [EvPC a] iff onpc s a: "
                           "exists tA tC opcode, trace s' = tC ++ pc ++ tA ++ trace s /\\ cbs tA = [] /\\ (exists tC', tC = tC' ++ [EvR a opcode]) /\\ (Stopped' <> Stopped -> opcode = 219 /\\ Stopped' = 1)  "
